@@ -1,7 +1,7 @@
 INIT Init
 NEXT Next
 CONSTANTS MaxNodes = 7
-          MaxNodesOpt = 6
+          MaxNodesOpt = 5
           MaxDepth = 3
           Shards = 16
 INVARIANT SpecSane
